@@ -209,8 +209,7 @@ def random_row(rng, n, style=None):
             w[i] = 0.0
     if style == "tiny" and n > 1:
         # down to far below machine epsilon (but positive): such an action is still in the support
-        # (not below 1e-30 per entry: products of reaches along a path of depth <= 8 must stay inside binary64)
-        w[rng.randrange(n)] *= 10.0 ** -rng.choice([3, 6, 9, 12, 17, 20, 30])
+        w[rng.randrange(n)] *= 10.0 ** -rng.choice([3, 6, 9, 12, 17, 20, 30, 100, 300])
     s = sum(w)
     return [x / s for x in w]
 
